@@ -89,7 +89,11 @@ def gen_vectors(ck, w, count):
                 pth = w.out_path(t[1])
                 argv += r.choice([["-o", pth], ["--output", pth]])
             elif k == "k":
-                txt = {"I": r.choice(["notakey", "A" * 24, "A" * 23 + "=", "", "A" * 21 + "=A="]), "V1": b64(w.K[1]), "V2": b64(w.K[2])}[t[1]]
+                hi = bytearray(b64(w.K[1]).encode())     # a valid key text with one symbol's top bit set: not a base64 text
+                hi[r.randrange(22)] |= 0x80
+                txt = {"I": r.choice(["notakey", "A" * 24, "A" * 23 + "=", "", "A" * 21 + "=A=", bytes(hi).decode("utf-8", "surrogateescape"), b64(w.K[1])[:21] + "A===", b64(w.K[1]) + "A",
+                                      b64(w.K[1])[:22] + "A" * r.randrange(1, 4) + "=="]),
+                       "V1": b64(w.K[1]), "V2": b64(w.K[2])}[t[1]]
                 argv += r.choice([["-k", txt], ["--key", txt], ["--key=" + txt]])
             elif k == "c":
                 argv += ["--cmode", str(t[2]) if len(t) > 2 else str(t[1])]
@@ -252,7 +256,7 @@ def whole_program_runs(ck, w, vecs, real, mdrv):
                     outidx, outp = k, outpath
                 k += 1
         fop.append("=" if last_dflt else "-")
-        ol = ",".join("%d:%s" % (c, "-" if a is None else (a.encode().hex() or "")) for c, a in opts)
+        ol = ",".join("%d:%s" % (c, "-" if a is None else (os.fsencode(a).hex() or "")) for c, a in opts)
         if any(a == "" for c, a in opts if a is not None):
             continue            # an empty option argument: the hex field would be empty
         lines.append("m%d @S=%d main %s %s" % (i, ck.rng.randrange(1 << 30), ol or "-", ",".join(fop)))
